@@ -317,6 +317,9 @@ func partB(r *rand.Rand, iterations int, stats map[string]int) (fail string, tra
 		}
 		// stable elements stay for the whole iteration; volatile ones come and go
 		nStable := 1 + r.Intn(120)
+		if it%5 == 3 && nStable < 40 {
+			nStable += 40 // drain mode (below) needs an iteration of several calls
+		}
 		stable := map[string]bool{}
 		for i := 0; i < nStable; i++ {
 			e := fmt.Sprintf("s%d", i)
@@ -352,6 +355,9 @@ func partB(r *rand.Rand, iterations int, stats map[string]int) (fail string, tra
 				return fmt.Sprintf("%s iteration did not terminate within 200000 calls", c.kind), trace
 			}
 			count := strconv.Itoa(1 + r.Intn(20))
+			if drain {
+				count = strconv.Itoa(1 + r.Intn(3)) // small batches: the iteration is still under way when everything is removed
+			}
 			var reply []byte
 			args := []string{}
 			switch c.kind {
